@@ -50,4 +50,33 @@ theorem oracleFast_eq (T : List LEntry) : oracleFast (tableMap T) = oracleOf T :
   funext Δ p
   simp [oracleFast, oracleOf, tableMap, foldl_insertIfNew_get]
 
+theorem tableMap_get (T : List LEntry) (k : VecL × Cls) : (tableMap T)[k]? = lookupL T k.1 k.2 := by
+  simp [tableMap, foldl_insertIfNew_get]
+
+/-- `entryOK` with hash-map look-ups -/
+def entryOKFast (M : Std.HashMap (VecL × Cls) Bool) (e : LEntry) : Bool :=
+  if e.live then
+    matchesAnyB e.vec e.p e.wit e.witN &&
+    (List.range 256).all fun b => (M[(derivVC e.p b e.vec, clsB b)]?).isSome
+  else
+    allCls.all (fun n => !(e.vec.any (nullableC e.p n))) &&
+    (List.range 256).all fun b => M[(derivVC e.p b e.vec, clsB b)]? == some false
+
+/-- `liveCertB` with hash-map look-ups (the table check is otherwise quadratic in the table size) -/
+def liveCertBFast (T : List LEntry) (D : VecL) : Bool :=
+  let M := tableMap T
+  D.all bytesOKL && allCls.all (fun p0 => (M[(D, p0)]?).isSome) && T.all (entryOKFast M)
+
+theorem entryOKFast_eq (T : List LEntry) (e : LEntry) : entryOKFast (tableMap T) e = entryOK T e := by
+  unfold entryOKFast entryOK
+  simp only [tableMap_get]
+
+theorem liveCertBFast_eq (T : List LEntry) (D : VecL) : liveCertBFast T D = liveCertB T D := by
+  have hf : entryOKFast (tableMap T) = entryOK T := funext (entryOKFast_eq T)
+  simp only [liveCertBFast, liveCertB, tableMap_get, hf]
+
+theorem liveCertBFast_sound {T : List LEntry} {D : VecL} (h : liveCertBFast T D = true) (p0 : Cls) :
+    VExact (oracleOf T) D p0 :=
+  liveCertB_sound (by rw [← liveCertBFast_eq]; exact h) p0
+
 end Logos.LK
